@@ -34,4 +34,16 @@ PROPS["C11"] = dict(
     not_covered=["string concatenation/repetition contents beyond the bounded unit (bytes crate internals)"],
 )
 
+PROPS["C13"] = dict(
+    level="proof",
+    text="closure parameter scoping: the four real Runner methods and cleanup, extracted and verified by Verus against a ghost variable store; every exit path (Ok, error, return)",
+    verus=["v_closure_runner"],
+    kani=[],
+    trusted=["verus prelude interp.rs + closure.rs: RuntimeState method contracts (HashMap insert/remove/entry), closure::insert and Runner::ident contracts (assumed; Kani discharge units planned)",
+             "call_runner: the closure body is havoc on the store with an arbitrary outcome"],
+    assumptions=["the two closure parameter identifiers are distinct (precondition distinct_params)"],
+    not_covered=["compile-time half: Builder::compile_closure restoring state.local", "the five stdlib callers beyond the frame scan that they only run closures through Runner"],
+    technique="contract-based deductive verification (Verus on mechanically extracted real bodies)",
+)
+
 HOOK_COMMITS = ["8978857"]
